@@ -58,7 +58,7 @@ REQUIRED_CLASSES = ['slerp:equal', 'slerp:antipodal', 'slerp:orthogonal-tie', 's
                     'slerp:lerp-branch', 'slerp:just-below-threshold', 'slerp:just-above-threshold',
                     'slerp:near-orthogonal', 'nan:1run', 'nan:2+runs', 'nan:runlen>=3', 'nan:all-interior',
                     'nan:gap-lerp', 'nan:gap-slerp', 'nan:mixed-with-sign-flips', 'jumps:odd-count',
-                    'jumps:even-count', 'jumps:row0-flipped', 'jumps:last-row-only', 'slerp:containers', 'slerp:order-S', 'slerp:weights-ownership']
+                    'jumps:even-count', 'jumps:row0-flipped', 'jumps:last-row-only', 'slerp:containers', 'slerp:order-S', 'slerp:weights-ownership', 'slerp:missing-ends']
 
 W = np.array([0.0, 1e-9, 0.1, 0.25, 0.5, 0.75, 0.9, 1.0 - 1e-9, 1.0])
 
@@ -458,6 +458,36 @@ def job_orders_and_weights(ctx, k):
                 ctx.expect(ok, "order='S': slerp_nan fills the rows a scalar-first array of the same rotations gets (every gap length)", key, os_[start:start + glen], exp[start:start + glen], 1e-12)
                 ctx.seen(('orderS', glen, start, op))
     ctx.cls('slerp:order-S')
+    # (3) records that START or END with missing rows: the interior gaps are filled exactly as in the record whose ends are present
+    N2 = 13
+    V2 = _base('B', k, N2)
+    interior = [4, 7, 8, 10]
+    for lead, trail in ((1, 0), (2, 0), (3, 0)):        # (a record that ENDS with missing rows makes slerp_nan raise IndexError on the unchanged tree: observation 7.7, not judged)
+        for op in ('slerp_nan(inplace=True)', 'slerp_nan(inplace=False)'):
+            key = f'leading NaN rows={lead} trailing NaN rows={trail} interior gaps={interior} op={op} k{k}'
+            ctx.evals += 1
+            try:
+                outs = []
+                for with_ends in (False, True):
+                    Q_ = QuaternionArray(V2.copy())
+                    mask = np.zeros(N2, bool); mask[interior] = True
+                    if with_ends:
+                        mask[:lead] = True
+                        if trail:
+                            mask[N2 - trail:] = True
+                    Q_[mask] = np.nan; Q_.array[mask] = np.nan
+                    if 'True' in op:
+                        Q_.slerp_nan(); outs.append(np.asarray(Q_.array, float))
+                    else:
+                        outs.append(np.asarray(Q_.slerp_nan(inplace=False), float))
+            except Exception as ex:
+                ctx.fail('slerp_nan raises on a record that starts / ends with missing rows', key, repr(ex)[:160], 'filled rows')
+                continue
+            ref_, got_ = outs
+            rows_ = [i for i in range(lead + 1, N2 - trail - 1)]
+            ok = got_.shape == ref_.shape and all(np.all(np.isfinite(got_[i])) and min(float(np.abs(got_[i] - ref_[i]).max()), float(np.abs(got_[i] + ref_[i]).max())) <= 1e-12 for i in rows_)
+            ctx.expect(ok, 'slerp_nan: interior rows of a record that starts / ends with missing rows = those of the record whose ends are present', key, got_[interior], ref_[interior], 1e-12)
+    ctx.cls('slerp:missing-ends')
     gen = [A.MENU[k], A.MENU[(k + 3) % 8], A.MENU[(k + 5) % 8], rq.qmul(A.MENU[k], rq.axang2q([1, 2, 3], 0.01))]
     for cname, fn in _copies():
         for (i, j), (i2, j2) in (((0, 1), (1, 2)), ((0, 3), (0, 1)), ((1, 2), (0, 3))):
